@@ -169,7 +169,7 @@ func ruleZ2(c *Ctx, id string) {
 						return false
 					}
 					n, fl, base := fieldLoad(ia2.X)
-					return n == V.Inode && fl == "blks" && base == w.Base
+					return n == V.Inode && fl == "blks" && base == stripConv(w.Base)
 				}
 				R.Check(MustBefore(fn, paired)(w.Instr), id, FuncName(fn)+"|clear paired with FreeBlock", P.Pos(w.Instr.Pos()), "blks[i] = 0 is preceded on every path by FreeBlock(blks[i])", "same slot freed first", "a pointer is cleared without freeing (and zeroing) the block: the block is leaked with its contents")
 			} else if fn == V.bmap {
